@@ -1,4 +1,5 @@
-import NunavutVerif.Model.Lexer
+import NunavutVerif.Model.LexerFull
+import NunavutVerif.Gen.LexerTables
 import NunavutVerif.Proto
 /-!
 Driver for the C19 correspondence.  One request per line (strings are '.'-separated code points, `-` = empty):
@@ -16,6 +17,13 @@ Driver for the C19 correspondence.  One request per line (strings are '.'-separa
   `assert <0|1> <msg>`                        → `ok <str>` | `err assertion <msg>`
   `uses <q> <0|1> <name> <body> <segs>`       → `ok <str>` | `err undefined <name>` | `err syntax` | `err assertion <msg>`
                                                  q: `-` or comma list `<name>=<0|1>`; segs: `-` or `;` list `<eu|en|el|end>,<name>,<body>`
+
+  `isword <codepoint>` / `isdigit <codepoint>`  → `1` / `0` (classes of `Gen/LexerTables.lean`)
+  `lex <env> <ls> <lc> <keep> <src>`          → `Lexer.tokeniter`: tokens joined by `;`: `<lineno> <type> <value>` |
+                                                 `<lineno> E <error> [<c> [<expected>]]` | `F`;  `-` when there is none
+  `ptok <env> <ls> <lc> <keep> <seq> <src>`   → `wrap(tokeniter)`: `<lineno> <type> <value> <0|1 parser wraps>` | error as above
+                                                 env: `<S|B|O><lstrip><trim>` e.g. `B01`; ls / lc: line statement / comment
+                                                 prefix or `~` (None); seq = newline_sequence
 
 cfg: `S0` `S1` (upstream, lstrip off/on), `B0` `B1` (bundled, repaired), `O0` `O1` (bundled before the fix).
 -/
@@ -82,7 +90,78 @@ def showRes : Except Err Str → String
   | .error (.undefinedQuery n) => s!"err undefined {encodeStr n}"
   | .error .syntax => "err syntax"
 
+
+/-! ### whole-lexer ops -/
+
+def inRanges (n : Nat) : List (Nat × Nat) → Bool
+  | [] => false
+  | (a, b) :: rs => if n < a then false else if n ≤ b then true else inRanges n rs
+
+def realTables : Tables where
+  isWord c := inRanges c.toNat Gen.LexerTables.wordRanges
+  isDigit c := inRanges c.toNat Gen.LexerTables.digitRanges
+  operators := Gen.LexerTables.operators
+
+def parseOptStr (s : String) : Option (Option Str) :=
+  if s = "~" then some none else (decodeStr s).map some
+
+def parseEnv (s ls lc : String) : Option Env :=
+  match s.toList, parseOptStr ls, parseOptStr lc with
+  | [v, l, t], some ls, some lc =>
+    let flags : Option (Bool × Bool) :=
+      if v = 'S' then some (false, false) else if v = 'B' then some (true, false)
+      else if v = 'O' then some (true, true) else none
+    match flags, parseBool (String.singleton l), parseBool (String.singleton t) with
+    | some (st, cs), some l, some t => some ⟨st, cs, l, t, ls, lc⟩
+    | _, _, _ => none
+  | _, _, _ => none
+
+def ttName : TT → String
+  | .data => "data" | .rawBegin => "raw_begin" | .variableBegin => "variable_begin" | .commentBegin => "comment_begin"
+  | .blockBegin => "block_begin" | .lstmtBegin => "linestatement_begin" | .lcmtBegin => "linecomment_begin"
+  | .comment => "comment" | .commentEnd => "comment_end" | .blockEnd => "block_end" | .variableEnd => "variable_end"
+  | .rawEnd => "raw_end" | .lstmtEnd => "linestatement_end" | .lcmt => "linecomment" | .lcmtEnd => "linecomment_end"
+  | .whitespace => "whitespace" | .float => "float" | .integer => "integer" | .name => "name" | .string => "string"
+  | .operator => "operator"
+
+def errName : LexErr → String
+  | .missingComment => "missing-comment"
+  | .missingRaw => "missing-raw"
+  | .unexpectedChar c => s!"unexpected-char {c.toNat}"
+  | .unexpectedClose c => s!"unexpected-close {c.toNat}"
+  | .unexpectedCloseExpected c e => s!"unexpected-close {c.toNat} {e.toNat}"
+
+def showTok : Nat × Tok → String
+  | (l, .tok t v) => s!"{l} {ttName t} {encodeStr v}"
+  | (l, .err e) => s!"{l} E {errName e}"
+  | (_, .outOfFuel) => "F"
+
+def showPTok (p : PTok) : String :=
+  match p with
+  | .tok l t v => s!"{l} {ttName t} {encodeStr v} {if parserWraps p then 1 else 0}"
+  | .err l e => s!"{l} E {errName e}"
+  | .outOfFuel => "F"
+
+def joinOr (xs : List String) : String := if xs.isEmpty then "-" else ";".intercalate xs
+
+def answerFull (line : String) : Option String :=
+  match line.splitOn " " with
+  | ["isword", n] => n.toNat?.map fun k => if realTables.isWord (Char.ofNat k) then "1" else "0"
+  | ["isdigit", n] => n.toNat?.map fun k => if realTables.isDigit (Char.ofNat k) then "1" else "0"
+  | ["lex", env, ls, lc, keep, src] =>
+    match parseEnv env ls lc, parseBool keep, decodeStr src with
+    | some e, some keep, some src => some (joinOr ((linenos 1 (tokeniter e realTables keep src)).map showTok))
+    | _, _, _ => none
+  | ["ptok", env, ls, lc, keep, seq, src] =>
+    match parseEnv env ls lc, parseBool keep, decodeStr seq, decodeStr src with
+    | some e, some keep, some seq, some src => some (joinOr ((tokenize e realTables keep seq src).map showPTok))
+    | _, _, _, _ => none
+  | _ => none
+
 def answer (line : String) : String :=
+  match answerFull line with
+  | some a => a
+  | none =>
   match line.splitOn " " with
   | ["isspace", n] =>
     match n.toNat? with
